@@ -472,6 +472,17 @@ theorem cache_methods_delegate :
     SdnsVerif.Gen.C16.segmap_trylocks = 0 := by
   decide
 
+/-- **The one hypothesis of the limiter theorems above 1000 entries, pinned.**
+`limiter_store_bounded` / `limiter_evicts_one_oldest_first` assume that the
+first key Go's map iteration yields is a stored key.  The compiled store, run
+at 1001 / 1100 / 1500 / 2500 entries with 1500 fresh inserts each: every
+insert into the full store evicted exactly one key, that key was a stored key
+and never the key being inserted (6000 evictions observed, regenerated every run). -/
+theorem limiter_sampled_path_evicts_a_stored_key :
+    6000 ≤ SdnsVerif.Gen.C16.limiter_sampled_evictions ∧ SdnsVerif.Gen.C16.limiter_sampled_victim_not_stored = 0 ∧
+    SdnsVerif.Gen.C16.limiter_sampled_no_victim = 0 ∧ SdnsVerif.Gen.C16.limiter_sampled_own_key = 0 := by
+  decide
+
 /-- The critical sections the limiter model treats as atomic ARE single
 sections of the store's one lock (`Cleanup`: one `Lock`, no `RLock`, scan and
 delete together), the length readers (`Len`, `SegmentCount`) take no lock
